@@ -178,13 +178,11 @@ extern "C" void harness_inflate_d() {
   const double scale = P10[prec + 8];
   VA(R.n_off_add == 1 && R.n_off_exec == 1 && R.off_jt == jt && R.off_et == et);
 #ifndef IPART     // IPART selects one group of value equalities per obligation (each is a floating-point product compared with its twin)
-#define IPART 7
+#define IPART 15
 #endif
   if (IPART & 1) VA(R.off_in_x == (int64_t)std::round(x * scale) && R.off_in_y == (int64_t)std::round(y * scale));
-  if (IPART & 2) {
-    VA(same_double(R.off_delta, delta * scale));           // delta scaled like the coordinates
-    VA(same_double(R.off_arc, at * scale));                // arc tolerance scaled alike
-  }
+  if (IPART & 2) VA(same_double(R.off_delta, delta * scale));           // delta scaled like the coordinates
+  if (IPART & 8) VA(same_double(R.off_arc, at * scale));                // arc tolerance scaled alike
   VA(same_double(R.off_miter, ml));                      // miter limit is a ratio: unscaled
   VA(res.size() == 1 && res[0].size() == 3);
   if (IPART & 4) VA(same_double(res[0][0].x, (double)R.out_x * (1 / scale)) && same_double(res[0][0].y, (double)R.out_y * (1 / scale)));
